@@ -58,7 +58,11 @@ type scenario struct {
 	Writes   []write `json:"writes,omitempty"`
 	B        []item  `json:"b,omitempty"` // phase B: after the writes were flushed (malformed lines live here)
 	End      string  `json:"end"`         // close | remote | cut | garbage
-	CutN     int     `json:"cut_n,omitempty"`
+	// Poll: while the application writes, another goroutine keeps issuing VERSION commands (a status
+	// poller / keep-alive). On the serial interface commands and data share one line: every frame
+	// must still arrive whole. Only in scenarios without CRCFAULT fences (which use VERSION themselves).
+	Poll bool `json:"poll,omitempty"`
+	CutN int  `json:"cut_n,omitempty"`
 }
 
 var Check = &vrt.Check{
@@ -246,6 +250,7 @@ func genScenario(seed int64, idx int) scenario {
 			sc.Writes = append(sc.Writes, w)
 		}
 		sc.Writes[len(sc.Writes)-1].Flush = true
+		sc.Poll = !faulty && r.Intn(2) == 0
 	}
 	if r.Intn(10) < 9 {
 		sc.A = genItems(r, &sc, r.Intn(14), false, &budget, !faulty)
